@@ -56,14 +56,30 @@ Definition atoms_of_event (e : mevent) : list atom :=
   match e with
   | EvBatch ops => map atom_of_op (sort_ops ops)
   | EvRelay k m => [(3, [k], [m_id m])]
+  | EvCancelled _ => []      (* ghost *)
   | EvMsgs l n => map (fun m => (4, [], [m_id m; m_data m])) l ++ [(5, [], [n])]
   | EvLen n => [(6, [], [n])]
   | EvPanic => [(7, [], [])]
   end.
 
+(* relays are compared as key-sorted lists (the order of Go's map/slice iteration is not modelled): every maximal
+   run of consecutive relay atoms is sorted by key *)
+Definition atom_key (a : atom) : key := match a with (_, k :: _, _) => k | _ => [] end.
+Definition is_relay (a : atom) : bool := match a with (t, _, _) => N.eqb t 3 end.
+Fixpoint insert_atom (a : atom) (l : list atom) : list atom :=
+  match l with
+  | [] => [a]
+  | x :: t => if kltb (atom_key a) (atom_key x) then a :: l else x :: insert_atom a t
+  end.
+Fixpoint sort_relay_runs (run : list atom) (l : list atom) : list atom :=
+  match l with
+  | [] => run
+  | a :: t => if is_relay a then sort_relay_runs (insert_atom a run) t else run ++ a :: sort_relay_runs [] t
+  end.
+
 Definition ms_rstep (st : mstore) (o : mrop) : mstore * list atom :=
   match o with
-  | RL l => let '(s, ev) := ms_step st l in (s, flat_map atoms_of_event ev)
+  | RL l => let '(s, ev) := ms_step st l in (s, sort_relay_runs [] (flat_map atoms_of_event ev))
   | RDump => (st, map (fun e => (8, [fst e], [m_id (snd e); m_data (snd e)])) (ms_db st))
   | RPend => (st, map (fun e => (9, [fst e], [1])) (ms_add st) ++ map (fun e => (9, [fst e], [2])) (ms_upd st)
                   ++ map (fun e => (9, [fst e], [3])) (ms_del st))
